@@ -27,6 +27,8 @@ func init() {
 				NeedCounters: []string{"recv-timeout-exact", "ctx-deadline-inherited", "ctx-deadline-switched-off-beside-the-sockets", "ctx-opened-before-keeps-no-deadline"}},
 			{Name: "recv-deadline-with-peers-coming-and-going-during-the-wait", Mode: "enum", Bound: b, Reset: kit.ResetGlobals, Body: recvDeadlineEvents,
 				NeedCounters: []string{"recv-timeout-exact-after-connection-events", "carrier-of-the-request-lost-during-the-wait"}},
+			{Name: "recv-deadline-with-the-queue-resized-during-the-wait", Mode: "enum", Bound: b, Reset: kit.ResetGlobals, Body: recvDeadlineResizes,
+				NeedCounters: []string{"recv-timeout-exact-across-queue-resizes"}},
 			{Name: "send-deadline", Mode: "enum", Bound: b, Reset: kit.ResetGlobals, Body: func() { sendModes("deadline") },
 				NeedCounters: []string{"send-timeout-exact", "send-no-deadline-waits", "send-immediate-ok", "send-timeout-exact-again-after-idle"}},
 			{Name: "modes-switched-off-again-during-a-blocked-send", Mode: "enum", Bound: b, Reset: kit.ResetGlobals, Body: modesReapplied,
@@ -429,6 +431,80 @@ func modesReapplied() {
 		kit.Count("no-peer-connected-during-the-wait")
 	}
 	kit.Observe("%s d=%v peer=%v", k.Name, d, withPeer)
+	kit.Must("Close", func() { _ = x.S.Close() })
+}
+
+// recvDeadlineResizes: a Recv with receive deadline d is waiting while another thread changes the
+// receive queue length one to three times (and, on SUB, subscribes / unsubscribes another topic,
+// which also replaces the queue).  The deadline belongs to the call: the timeout error arrives
+// exactly d after the call, not d after the last change.
+func recvDeadlineResizes() {
+	var ks []*kinds.Kind
+	for _, k := range kinds.All {
+		if k.CanRecv {
+			ks = append(ks, k)
+		}
+	}
+	k := ks[kit.ChooseFree(len(ks))]
+	useCtx := k.Ctx && kit.ChooseFree(2) == 1
+	changes := 1 + kit.ChooseFree(3)
+	d := 2 * time.Second
+	x := k.Open("c18rz", true, false)
+	x.Quiet()
+	ep := endpoint{name: k.Name, set: x.S.SetOption, recv: x.Recv}
+	if useCtx {
+		c, err := x.S.OpenContext()
+		if err != nil {
+			kit.Failf("setup:ctx:"+k.Name, "OpenContext: %s", kit.ErrName(err))
+		}
+		ep = endpoint{name: k.Name + ".ctx", set: c.SetOption, recv: func() (string, error) { b, err := c.Recv(); return string(b), err }}
+		x.Ctx = c
+	}
+	if err := ep.set(mangos.OptionRecvDeadline, d); err != nil {
+		return
+	}
+	if err := ep.set(mangos.OptionReadQLen, 3); err != nil {
+		return // (no receive queue length on this object)
+	}
+	x.PrepRecv()
+	c := kit.Start("Recv", func() (interface{}, error) { return ep.recv() })
+	kit.Quiesce()
+	if c.Done() {
+		kit.Failf("recv-returned-with-nothing:"+ep.name, "%s: Recv returned %s at once although nothing can be received", ep.name, kit.ErrName(c.Err))
+	}
+	for i := 0; i < changes; i++ {
+		kit.Sleep(d / 4)
+		kit.Quiesce()
+		q := 4 + i
+		oc := kit.Start("SetOption(ReadQLen)", func() (interface{}, error) { return nil, ep.set(mangos.OptionReadQLen, q) })
+		kit.Quiesce()
+		if !oc.Done() || oc.Err != nil {
+			kit.Failf("qlen-reconf-hang:"+ep.name, "%s: SetOption(ReadQLen,%d) while a Recv waits: done=%v %s", ep.name, q, oc.Done(), kit.ErrName(oc.Err))
+		}
+		if k.Name == "sub" {
+			_ = ep.set(mangos.OptionSubscribe, "other")
+			_ = ep.set(mangos.OptionUnsubscribe, "other")
+			kit.Quiesce()
+		}
+		if c.Done() {
+			kit.Failf("recv-ended-by-a-queue-resize:"+ep.name, "%s: Recv with deadline %v returned %s after %v, when the queue length was changed", ep.name, d, kit.ErrName(c.Err), c.T1-c.T0)
+		}
+	}
+	kit.Sleep(d - time.Duration(changes)*(d/4) - time.Nanosecond)
+	kit.Quiesce()
+	if c.Done() {
+		kit.Failf("recv-deadline-early:"+ep.name, "%s: Recv with deadline %v returned %s after only %v", ep.name, d, kit.ErrName(c.Err), c.T1-c.T0)
+	}
+	kit.Sleep(time.Nanosecond)
+	kit.Quiesce()
+	if !c.Done() {
+		kit.Failf("recv-deadline-restarted-by-resize:"+ep.name, "%s: Recv with deadline %v is still blocked %v after the call: the receive queue length was changed %d time(s) meanwhile (the last time %v after the call), and the deadline seems to run from there", ep.name, d, kit.Now()-c.T0, changes, time.Duration(changes)*(d/4))
+	}
+	if c.Err != mangos.ErrRecvTimeout || c.T1-c.T0 != d {
+		kit.Failf("recv-deadline-result:"+ep.name, "%s: Recv with deadline %v returned %s after %v, want ErrRecvTimeout after exactly the deadline (queue length changed %d time(s) during the wait)", ep.name, d, kit.ErrName(c.Err), c.T1-c.T0, changes)
+	}
+	kit.Count("recv-timeout-exact-across-queue-resizes")
+	kit.Observe("%s changes=%d", ep.name, changes)
 	kit.Must("Close", func() { _ = x.S.Close() })
 }
 
